@@ -49,9 +49,110 @@ def _parse_cached(path: str):
     if hit is None:
         with open(path, "r", encoding="utf-8") as f:
             src = f.read()
-        hit = (src, ast.parse(src, filename=path))
+        hit = (src, canonicalise(ast.parse(src, filename=path)))
         _PARSE_CACHE[key] = hit
     return hit
+
+
+# ---------------------------------------------------------------------------
+# canonical form of the parsed program
+#
+# Every rule sees the source through this behaviour-preserving normalisation, so that three
+# innocent spellings never change a verdict (they were the cause of nearly all false alarms of
+# the behaviour-preserving rewrite sweep, sa.selftest.benignmut):
+#   * `x = E; return x` with x used nowhere else in the function   ->  `return E`
+#   * a `pass` statement next to other statements                   ->  dropped
+#   * `not (not C)` in a truth-value position (if/while/assert/conditional-expression test,
+#     operand of not/and/or)                                        ->  `C`
+# Node positions of what remains are untouched, so reports still name the real lines.
+
+_STMT_LISTS = ("body", "orelse", "finalbody")
+_SCOPES = (ast.FunctionDef, ast.AsyncFunctionDef)
+
+
+def _strip_not_not(e: ast.AST) -> ast.AST:
+    while isinstance(e, ast.UnaryOp) and isinstance(e.op, ast.Not) and isinstance(e.operand, ast.UnaryOp) \
+            and isinstance(e.operand.op, ast.Not):
+        e = e.operand.operand
+    return e
+
+
+class _TruthPositions(ast.NodeTransformer):
+    def _t(self, node, field):
+        setattr(node, field, _strip_not_not(getattr(node, field)))
+
+    def visit_If(self, node):
+        self._t(node, "test")
+        return self.generic_visit(node)
+
+    visit_While = visit_IfExp = visit_Assert = visit_If
+
+    def visit_UnaryOp(self, node):
+        if isinstance(node.op, ast.Not):
+            node.operand = _strip_not_not(node.operand)
+        return self.generic_visit(node)
+
+    def visit_BoolOp(self, node):
+        node.values = [_strip_not_not(v) for v in node.values]
+        return self.generic_visit(node)
+
+
+def _name_uses(fn: ast.AST) -> Dict[str, int]:
+    uses: Dict[str, int] = {}
+    for n in ast.walk(fn):
+        if isinstance(n, ast.Name):
+            uses[n.id] = uses.get(n.id, 0) + 1
+        elif isinstance(n, ast.arg):
+            uses[n.arg] = uses.get(n.arg, 0) + 2          # parameters are never inlined
+        elif isinstance(n, (ast.Global, ast.Nonlocal)):
+            for x in n.names:
+                uses[x] = uses.get(x, 0) + 2
+    return uses
+
+
+def _canon_stmts(stmts: List[ast.stmt], uses: Optional[Dict[str, int]]) -> List[ast.stmt]:
+    if len(stmts) > 1:
+        kept = [s for s in stmts if not isinstance(s, ast.Pass)]
+        stmts = kept or stmts[:1]
+    out: List[ast.stmt] = []
+    i = 0
+    while i < len(stmts):
+        s = stmts[i]
+        nxt = stmts[i + 1] if i + 1 < len(stmts) else None
+        if uses is not None and isinstance(s, ast.Assign) and len(s.targets) == 1 and isinstance(s.targets[0], ast.Name) \
+                and isinstance(nxt, ast.Return) and isinstance(nxt.value, ast.Name) \
+                and nxt.value.id == s.targets[0].id and uses.get(nxt.value.id, 0) == 2:
+            out.append(ast.copy_location(ast.Return(value=s.value), nxt))
+            i += 2
+            continue
+        out.append(s)
+        i += 1
+    return out
+
+
+def _canon_node(node: ast.AST, uses: Optional[Dict[str, int]]):
+    if isinstance(node, _SCOPES):
+        uses = _name_uses(node)
+    elif isinstance(node, ast.ClassDef):
+        uses = None
+    for field in _STMT_LISTS:
+        v = getattr(node, field, None)
+        if isinstance(v, list) and v and isinstance(v[0], ast.stmt):
+            setattr(node, field, _canon_stmts(v, uses))
+    for h in getattr(node, "handlers", []) or []:
+        h.body = _canon_stmts(h.body, uses)
+    for c in getattr(node, "cases", []) or []:
+        c.body = _canon_stmts(c.body, uses)
+    for ch in ast.iter_child_nodes(node):
+        _canon_node(ch, uses)
+
+
+def canonicalise(tree: ast.Module) -> ast.Module:
+    if os.environ.get("SA_NO_CANON"):
+        return tree
+    _TruthPositions().visit(tree)
+    _canon_node(tree, None)
+    return tree
 
 
 class AnalysisError(Exception):
